@@ -116,7 +116,8 @@ def eval_put(doc, path, rkind):
         out = sp.apply_resultpath(d1, result, path)
         got = ("value", out) if finite(out) else ("cyclic",)
     except ex.ResultPathMatchFailure:
-        got = ("unplaceable",)
+        # a placement that is refused must leave the document as it was (the state's Catcher then works on the raw input)
+        got = ("unplaceable",) if (rkind[0] != "fresh" or json.dumps(d1, sort_keys=True) == json.dumps(doc, sort_keys=True)) else ("unplaceable-but-modified", d1)
     except Exception as e:
         got = ("raise", type(e).__name__)
     try:
@@ -164,6 +165,8 @@ def classify_put(doc, path, rkind, got, want):
         return "put-raises-%s" % got[1]
     if got[0] == "cyclic":
         return "put-cyclic-alias"
+    if got[0] == "unplaceable-but-modified":
+        return "put-refused-but-document-modified"
     return "put-wrong"
 
 def _chunk(args):
